@@ -20,6 +20,7 @@ block of `MarshalClientHelloNoECH`, `PatchBuiltHello`/`uApplyPatch`, the PSK par
   `offered_only_with_extension`, `server_never_aborts`;
 * `psk_survives_hrr_partial` + `psk_hrr_breaks` + `psk_hrr_guard_exact`, `resumption_breaks_on_psk_hrr`
   (D11: the full statement is false of the unchanged code);
+* rebuilds before `Handshake`: `binder_fresh_after_rebuild`, `sent_head_is_edited`;
 * histories: `cache_origin_step`, `cache_origin_inv`, `no_cross_name_history`, `never_breaks_partial`,
   `resumes12`, `resumes13_partial`, `resumes_next_partial`.
 -/
@@ -431,6 +432,88 @@ the same argument applies with the prefixed binder function. -/
 theorem binder_verifies_after_hrr (G : Bytes → Bytes) (pfx head2 : Bytes) :
     serverBinderOk (fun t => G (pfx ++ t)) (head2 ++ bindersBlock [G (pfx ++ head2)]) [G (pfx ++ head2)] = true :=
   binder_verifies (fun t => G (pfx ++ t)) head2
+
+/-! ## Rebuilds: the binder on the wire is always the binder of the bytes sent -/
+
+private theorem patch_ok_gen (F : Bytes → Bytes) (hs : Nat) (hF : ∀ x, (F x).length = hs) (head ph : Bytes)
+    (hph : ph.length = hs) :
+    patchBinders F (head ++ bindersBlock [ph]) [ph] = .ok (head ++ bindersBlock [F head]) := by
+  have hlen : (head ++ bindersBlock [F head]).length = (head ++ bindersBlock [ph]).length := by
+    simp [bindersBlock_length, Ext.vec8sLen, hF, hph]
+  unfold patchBinders
+  simp only [take_head]
+  simp [hF, hph, hlen]
+
+private theorem buildStep_spec (F : Bytes → Bytes) (hs : Nat) (hF : ∀ x, (F x).length = hs) (b : Built)
+    (hb : b.binder.length = hs) :
+    buildStep F b = { b with raw := b.head ++ bindersBlock [F b.head], binder := F b.head, st := .allSet,
+                             patches := b.patches + 1 } := by
+  have hsu : shouldUpdateBinders b.st = true := by cases b.st <;> rfl
+  unfold buildStep
+  simp only [hsu, if_true, patch_ok_gen F hs hF b.head b.binder hb, take_head]
+
+private theorem preStep_inv (F : Bytes → Bytes) (hs : Nat) (hF : ∀ x, (F x).length = hs) (b : Built)
+    (hb : b.binder.length = hs) (op : PreOp) :
+    (preStep F b op).binder.length = hs ∧ (preStep F b op).patches = b.patches + (if op.isBuild then 1 else 0) := by
+  cases op with
+  | build => simp [preStep, buildStep_spec F hs hF b hb, hF, PreOp.isBuild]
+  | edit f => simp [preStep, hb, PreOp.isBuild]
+
+private theorem fold_inv (F : Bytes → Bytes) (hs : Nat) (hF : ∀ x, (F x).length = hs) (ops : List PreOp) (b : Built)
+    (hb : b.binder.length = hs) :
+    (ops.foldl (preStep F) b).binder.length = hs ∧ (ops.foldl (preStep F) b).patches = b.patches + nBuilds ops := by
+  induction ops generalizing b with
+  | nil => simp [hb, nBuilds]
+  | cons op ops ih =>
+    obtain ⟨h1, h2⟩ := preStep_inv F hs hF b hb op
+    obtain ⟨h3, h4⟩ := ih (preStep F b op) h1
+    refine ⟨h3, ?_⟩
+    simp only [List.foldl_cons]
+    rw [h4, h2]
+    cases op <;> simp [nBuilds, PreOp.isBuild, List.filter] <;> omega
+
+/-- **binder fresh after rebuild**: for every sequence of `BuildHandshakeState` calls and edits of
+the hello before `Handshake` (which always builds once more), the hello that goes out is
+`head ‖ binders-block [F head]` for the **final** head — the binder is the one of the bytes
+actually sent, so crypto/tls's check passes; `|Raw|` is that of the placeholder form; and
+`PatchBuiltHello` ran once per build. (A controller that patches only on the first build sends the
+binder of the old bytes after any edit.) -/
+theorem binder_fresh_after_rebuild (F : Bytes → Bytes) (hs : Nat) (hF : ∀ x, (F x).length = hs)
+    (head0 : Bytes) (ops : List PreOp) :
+    let b := sentAfter F (builtInit head0 hs) ops
+    b.raw = b.head ++ bindersBlock [F b.head] ∧
+    serverBinderOk F b.raw [F b.head] = true ∧
+    b.raw.length = (b.head ++ bindersBlock [zeros hs]).length ∧
+    b.patches = nBuilds ops + 1 := by
+  have h0 : (builtInit head0 hs).binder.length = hs := by simp [builtInit, zeros]
+  obtain ⟨h1, h2⟩ := fold_inv F hs hF ops (builtInit head0 hs) h0
+  simp only [sentAfter]
+  rw [buildStep_spec F hs hF _ h1]
+  refine ⟨rfl, binder_verifies F _, ?_, ?_⟩
+  · simp [bindersBlock_length, Ext.vec8sLen, hF, zeros]
+  · show (List.foldl (preStep F) (builtInit head0 hs) ops).patches + 1 = nBuilds ops + 1
+    rw [h2]; simp [builtInit]
+
+/-- the head that goes out is the initial one with the caller's edits applied in order. -/
+theorem sent_head_is_edited (F : Bytes → Bytes) (head0 : Bytes) (hs : Nat) (ops : List PreOp) :
+    (sentAfter F (builtInit head0 hs) ops).head =
+      ops.foldl (fun h op => match op with | .build => h | .edit f => f h) head0 := by
+  have : ∀ (b : Built), (buildStep F b).head = b.head := by
+    intro b; unfold buildStep; dsimp only; split
+    · split <;> rfl
+    · rfl
+  have hf : ∀ (ops : List PreOp) (b : Built), (ops.foldl (preStep F) b).head =
+      ops.foldl (fun h op => match op with | .build => h | .edit f => f h) b.head := by
+    intro ops
+    induction ops with
+    | nil => intro b; rfl
+    | cons op ops ih =>
+      intro b
+      simp only [List.foldl_cons]
+      rw [ih]
+      cases op <;> simp [preStep, this]
+  simp only [sentAfter, this, hf]
+  rfl
 
 /-! ## HelloRetryRequest (D11)
 
@@ -897,6 +980,12 @@ example : (run Ex.T [] [{ cfg := Ex.cfg, hello := Ex.chromePsk, now := 200, srv 
 /-- HelloGolang survives the HelloRetryRequest (re-binding), the parrot does not (D11). -/
 example : (stepConn Ex.T [(1, Ex.s13)] { cfg := Ex.cfg, hello := { Ex.chromePsk with golang := true }, now := 200, srv := Ex.srv true 200 }).resumed = true ∧
     (stepConn Ex.T [(1, Ex.s13)] { cfg := Ex.cfg, hello := Ex.chromePsk, now := 200, srv := Ex.srv true 200 }).err = some .pskHrr := by decide +kernel
+/-- `binder_fresh_after_rebuild`: BuildHandshakeState, an edit of the hello (e.g. SetClientRandom), Handshake —
+three patches, the binder on the wire is the one of the edited bytes, not of the first build. -/
+example :
+    let b := sentAfter Ex.F (builtInit [1, 2, 3] 32) [.build, .edit (fun h => 9 :: h), .build]
+    b.patches = 3 ∧ b.head = [9, 1, 2, 3] ∧ b.binder = Ex.F [9, 1, 2, 3] ∧ b.binder ≠ Ex.F [1, 2, 3] ∧
+      serverBinderOk Ex.F b.raw [b.binder] = true := by decide +kernel
 /-- `OriginInv` holds of the empty cache (the start of every history). -/
 example : OriginInv [] := by intro k s h; cases h
 
